@@ -142,7 +142,8 @@ fn plan10(seed: u64, run: u64, tier: Tier) -> Plan10 {
     }
     let mut tags = Vec::new();
     let mut fs = FsSpec::default();
-    let shape = mapgen::gen_shape(&mut rng);
+    let mut shape = mapgen::gen_shape(&mut rng);
+    shape.alt_spelling = true;
     let mut omap = mapgen::gen_orig_map(&mut rng, &program, &shape);
     if rng.chance(1, 8) {
         // the original map names its source like the file being rewritten (in-place minification,
